@@ -70,7 +70,10 @@ def c03_case(args):
     base = tm.execute(case, L, flav={"src": "cls", "call": "asyncdef"})
     ref = outcome(base)
     n = nsrc_of(case)
-    if n <= 2:
+    if case["cfg"]["par"].get("alias"):
+        # one object at every position: it has to be an iterator (a list would be iterated afresh per position)
+        assigns = [(f,) * n for f in ("cls", "agen", "clsnoclose", "iter")]
+    elif n <= 2:
         assigns = list(itertools.product(SRC_FLAVOURS, repeat=n))
     else:
         assigns = [tuple(rnd.choice(SRC_FLAVOURS) for _ in range(n)) for _ in range(12)] + [(f,) * n for f in SRC_FLAVOURS]
